@@ -40,14 +40,14 @@ CHECKS = {
                   'order independence, undefined statistic never passes. Bounded by <= 4 bins.',
              design='DESIGN.md section 4 C07'),
  'C17': dict(technique='bounded symbolic execution of the real Browser/Index code (symrun + z3) with symbolic-equality keys: dict/set partition metadata values by solver-decided equality; differential against the naive scan',
-             text='For item lists of <= 3 (4) items over <= 2 metadata keys with ARBITRARY hashable values (only equality observable), all '
+             text='For item lists of <= 3 (4) items over <= 2 metadata keys (3 keys, 2-3 items, for queries with three keyword criteria) with ARBITRARY hashable values (only equality observable), all '
                   'presence patterns, queries, include/exclude sets and 1-2 step chains, on every path (one per feasible equality pattern) the '
                   'result items/order/data identity/globals/data_key, select_by exceptions, merge and immutability of browsers and inputs are decided; '
                   'plus lists of 10 (13) items with concrete values and every subset matching (order of the selection), the data key named in '
-                  'include / exclude, item-less merge operands carrying globals.',
+                  'include / exclude, item-less merge operands carrying globals, queries on the documented position key (index) of built, filtered and merged browsers.',
              design='DESIGN.md section 4 C17'),
  'C16': dict(technique='bounded-exhaustive symbolic execution of the real DepGraph/RList code (symrun, z3 decides fork feasibility): inductive step = one or two operations with solver-chosen arguments from every valid state of the bound, compared with a set model',
-             text='From EVERY representation state over <= 3 (4) nodes (symbolic edge matrix) every public operation with every argument choice is '
+             text='From EVERY representation state over <= 3 (4) nodes (4 nodes in the quick tier too for transitive reduction / closure / topological sort; symbolic edge matrix) every public operation with every argument choice is '
                   'executed; representation invariant, nodes/dependencies/dependees/iteration/==/<=, independence of copies and inverses, '
                   'topological sort, transitive reduction/closure and flatten (nested graphs incl. empty and two-level ones, nested objects left unmodified), '
                   'edge edits after a merge, are compared with the mathematical model. '
@@ -63,8 +63,10 @@ CHECKS = {
              technique='per-thread automata extracted from the real scheduler code by symbolic execution between synchronisation points; z3 bounded model checking (QF_BV) with the interleaving, task outcomes and clock instants as solver variables; counterexamples replayed on real threads',
              text='For each listed graph/worker count, ONE z3 query over ALL interleavings (schedule = solver variables), all 11 task outcome kinds and all '
                   'clock readings decides that no task starts before every dependency is final and its update is readable. The automata are regenerated '
-                  'from /repo on every run; a counterexample is a concrete schedule that is replayed on the real code with real threads.',
-             design='DESIGN.md sections 2.2, 4 C01'),
+                  'from /repo on every run; a counterexample is a concrete schedule that is replayed on the real code with real threads. One symrun job '
+                  'reduces graphs that hold a nested (possibly empty) dependency graph as a node to those plain-task graphs: what Scheduler.__init__ hands '
+                  'to the back end orders two tasks exactly when the given hard / soft edges do (5832 labelled graphs).',
+             design='DESIGN.md sections 2.2, 4 C01, 9.5'),
  'C02': dict(engine='threadsym', category='model_checking', note=TS_NOTE,
              technique='extracted thread automata + z3 bounded model checking over all interleavings (QF_BV); final status map compared with a recursive specification F(graph, outcomes); replay on real threads',
              text='For each listed graph/worker count one query per clause over all interleavings and outcome kinds: no task executed twice; at '
@@ -72,19 +74,20 @@ CHECKS = {
              design='DESIGN.md sections 2.2, 4 C02'),
  'C03': dict(engine='threadsym', category='model_checking', note=TS_NOTE,
              technique='extracted thread automata + z3 bounded model checking over all interleavings (QF_BV) from a solver-chosen initial environment; deadlock / lost wake-up / leaked worker as a quiescence predicate; work queue handed back pristine (induction over calls on one scheduler object); unwinding query bounds every run where it is within reach (thorough); replay on real threads',
-             text='For each listed graph (cyclic ones included), worker count, outcome kinds and arbitrary initial DONE/FAILED/SKIPPED entries: no '
+             text='For each listed graph (cyclic ones included), worker count, outcome kinds and arbitrary initial entries (DONE/FAILED/SKIPPED of earlier runs, WAITING/PENDING left by a killed run): no '
                   'reachable state in which nothing can move while a started thread has not finished (covers lost wake-ups, dead workers, workers '
                   'left blocked after the master returned or raised); thorough tier additionally proves every run ends within K steps.',
              design='DESIGN.md sections 2.2, 4 C03'),
  'C04': dict(engine='threadsym', category='model_checking', note=TS_NOTE,
              technique='inductive step over run histories: extracted thread automata + z3 bounded model checking (QF_BV) of ONE run from an arbitrary persisted environment satisfying the carry-over invariant; replay on real threads',
              text='One run from EVERY persisted environment allowed by the documented carry-over (solver-chosen entries and clocks): at termination no '
-                  'DONE task has a DONE dependency that finished after it started or a failed hard dependency, and an up-to-date task is neither '
+                  'DONE task has a DONE dependency that finished after it started or a failed hard dependency (also when the persisted clocks contradict the '
+                  'current graph: dependency edges added between runs), and an up-to-date task is neither '
                   're-executed nor modified. Composes over histories of any length.',
              design='DESIGN.md sections 2.2, 4 C04'),
  'C14': dict(technique='bounded symbolic execution of the real persistence code (symrun + z3) against fault-injecting stubs of open() and pickle: statuses, crash point of the write phase, errno values and the exception raised by a damaged file are solver-chosen',
              text='For <= 2 (3) tasks with every status / output_dir pattern, older files on disk, every write fault (open fails, crash leaving an empty '
-                  'or truncated file) and read fault (errno symbolic, garbage) and EVERY exception of the unpickling contract: read_env never raises and '
+                  'or truncated file, crash while the entry is serialised -- into the file or into memory first) and read fault (errno symbolic, garbage) and EVERY exception of the unpickling contract: read_env never raises and '
                   'returns exactly the intact DONE entries as written; plus a job with the REAL pickle on a real directory (payload plain / array / containing '
                   'an Env, written once or twice).',
              design='DESIGN.md section 4 C14'),
@@ -103,13 +106,13 @@ CHECKS = {
  'C15': dict(technique='bounded symbolic execution (symrun + z3: solver-chosen request histories) of the real Use / RunTaskFactory / close_dependency_graph code against its process-wide caches; returned tasks executed with tagged callables',
              text='For every history of 2 (3) wrapper requests / 3 (4) factory requests over the listed alphabets and every hard/soft graph on <= 3 (4) '
                   'tasks: identical requests share a task, different requests never do (two known cache-key findings excluded by signature), each task '
-                  'runs its own function / command line with its own dependencies, closure / collect_tasks return every transitive dependency once; plus '
+                  'runs its own function / command line with its own dependencies (factories made without, with hard, with hard and soft dependencies; copies of them), closure / collect_tasks return every transitive dependency once; plus '
                   'wrappers of wrappers and sibling factories (different default keywords, or two executables of one build task) with a wrapper on each run task.',
              design='DESIGN.md section 4 C15'),
  'C12': dict(technique='bounded symbolic execution (symrun + z3: solver-chosen result kinds, failing-bin patterns as symbolic booleans, verbosities, slices) of the real table representers, TableTemplate and RstTable formatter',
              text='For every result kind with a built-in representation, every failing-bin pattern of the listed shapes, all 6 verbosities and both table '
                   'representers: a highlight/KO mark appears iff the result is false; detailed tables highlight exactly the failing bins and show their '
-                  'values (template level and text level); highlight masks and columns have equal lengths; slicing/joining (synthetic tables and the tables '
+                  'values (template level and text level); metadata tables show each sample under its own header cell by cell; highlight masks and columns have equal lengths; slicing (steps 1, 2, -1, -2) / joining (synthetic tables and the tables '
                   'of two results of one kind) keeps them aligned; EVERY produced table is parsed back with docutils on every path: valid reStructuredText, '
                   'cells and highlights equal to the template.',
              design='DESIGN.md section 4 C12'),
@@ -117,7 +120,9 @@ CHECKS = {
              text='For every result kind, failing pattern and every sequence of 2 (3) operations out of bool, oracles, counts, table/plot/full '
                   'representation at any verbosity, rst formatting, fingerprint, deepcopy, pickle: verdict, recorded statistics (dictionary key sets '
                   'included) and input datasets are identical before and after; evaluating twice gives identical results and leaves the observed results '
-                  'unchanged; cells may be NaN, arrays big-endian, names non-alphabetical, and user-made (external) results with units are included.',
+                  'unchanged; cells may be NaN, arrays big-endian, names non-alphabetical, and user-made (external) results with units are included; '
+                  'a Student test gives the decisions of the scipy quantile whatever test with a nearby significance level was evaluated before it; drawing a '
+                  'plot template of any plot type with matplotlib leaves its data unchanged.',
              design='DESIGN.md section 4 C13'),
  'C10': dict(technique='bounded-exhaustive symbolic execution (symrun + z3 as enumerator of solver-chosen file layouts) of the real Tripoli-4 reader on synthetic listings and of the real Apollo3 Reader/Picker on synthetic HDF5 files, both built around ground truth; numbers are concrete tags',
              text='PARTIAL. Tripoli-4: for every synthetic listing of the bound (1-2(3) spectrum responses, 1-3(4) energy groups, optional time steps / mu '
